@@ -371,6 +371,9 @@ func c04Gen(r *Rng, tier string, i int) Sx {
 	}
 	// 404 and 405 probes
 	g.reqs = append(g.reqs, L(S("GET"), S("/zz/none"), L()))
+	if r.Chance(1, 3) { // paths nobody expects (control characters, as a decoded %09 / %00 / %7F gives them): global middleware still runs
+		g.reqs = append(g.reqs, L(S("GET"), S(r.Pick([]string{"/zz/no\tne", "/no\x00such/page", "/\x7f", "/zz/\r\n"})), L()))
+	}
 	if len(g.reqs) > 1 {
 		first := g.reqs[0]
 		if na {
@@ -441,6 +444,9 @@ func c05Gen(r *Rng, tier string, i int) Sx {
 	if i%20 == 19 {
 		return c05AfterPanic(r)
 	}
+	if i%20 == 18 {
+		return c05Limit(r)
+	}
 	n := r.Range(1, 12)
 	switch r.Intn(10) {
 	case 0:
@@ -449,6 +455,37 @@ func c05Gen(r *Rng, tier string, i int) Sx {
 		n = r.Range(41, 63)
 	}
 	return c05Make(r, n, r.Intn(n), r.Intn(5), r.Intn(3), true)
+}
+
+// c05Limit: group + route middleware at and just over the limit of the abort sentinel (63 handlers), through every way of
+// adding a route: beyond the limit the registration must be refused (a handler at index 63 would start "aborted")
+func c05Limit(r *Rng) Sx {
+	total := r.Pick2([]int{61, 62, 63, 64, 70}) // middleware of group + route (the main handler comes on top)
+	ng := r.Range(1, total-1)
+	var hs, grp, own []Sx
+	for k := 1; k <= total; k++ {
+		ops := []Sx{ev(k * 10), L(A("next"))}
+		if k == total/2 {
+			ops = []Sx{ev(k * 10), L(A("abort")), L(A("next"))}
+		}
+		hs = append(hs, L(I(k), LS(ops)))
+		if k <= ng {
+			grp = append(grp, I(k))
+		} else {
+			own = append(own, I(k))
+		}
+	}
+	hs = append(hs, L(I(900), L(ev(9000), L(A("isab")))))
+	route := L(A("route"), SL([]string{"GET"}), S("/x"), I(900), LS(own), L(), S(""))
+	switch r.Intn(4) {
+	case 0:
+		route.List = append(route.List, A("pre"))
+	case 1:
+		route.List = append(route.List, A("attach"))
+	case 2:
+		route.List = append(route.List, A("short"))
+	}
+	return L(A("rp"), L(), L(L(A("group"), S("/g"), LS(grp), L(route))), LS(hs), L(L(S("GET"), S("/g/x"), L())))
 }
 
 // n = chain length (incl. main), pos = aborting handler, kind = abort flavour, when = before/after/without Next
